@@ -3,21 +3,21 @@
 # Confirms in the scratch worktree that mutantN compiles, passes the existing tests, that its demo fails with it and
 # passes without it; then files it under /verif/seeded/<seeded-id>/.
 set -u
-WT=$1; N=$2; ID=$3; PROP=$4
+WT=$1; N=$2; ID=$3; PROP=$4; LOGD=$(dirname $WT)
 export CARGO_NET_OFFLINE=true CARGO_TARGET_DIR=$WT/target
 cd $WT || exit 2
 git checkout -q -- . && git clean -fdq tests 2>/dev/null
 mkdir -p tests
 cp MUTANT/demo_mutant$N.rs tests/demo_mutant$N.rs
 echo "== demo on original"
-cargo test --offline --test demo_mutant$N >/tmp/wt/log_$ID.orig 2>&1; ORIG=$?
+cargo test --offline --test demo_mutant$N >$LOGD/log_$ID.orig 2>&1; ORIG=$?
 git apply MUTANT/mutant$N.diff || { echo "patch does not apply"; exit 3; }
 echo "== existing tests with the change"
 rm tests/demo_mutant$N.rs
-cargo test --offline >/tmp/wt/log_$ID.tests 2>&1; TESTS=$?
+cargo test --offline >$LOGD/log_$ID.tests 2>&1; TESTS=$?
 cp MUTANT/demo_mutant$N.rs tests/demo_mutant$N.rs
 echo "== demo with the change"
-cargo test --offline --test demo_mutant$N >/tmp/wt/log_$ID.mut 2>&1; MUT=$?
+cargo test --offline --test demo_mutant$N >$LOGD/log_$ID.mut 2>&1; MUT=$?
 git checkout -q -- . ; rm -f tests/demo_mutant$N.rs; rmdir tests 2>/dev/null
 echo "orig=$ORIG tests=$TESTS mutant=$MUT"
 if [ $ORIG -eq 0 ] && [ $TESTS -eq 0 ] && [ $MUT -ne 0 ]; then
@@ -35,5 +35,5 @@ json.dump({"property":prop,"origin":"independent sub-agent given only the proper
 PY
   echo "CONFIRMED -> $D"
 else
-  echo "NOT CONFIRMED"; tail -5 /tmp/wt/log_$ID.orig /tmp/wt/log_$ID.tests /tmp/wt/log_$ID.mut
+  echo "NOT CONFIRMED"; tail -5 $LOGD/log_$ID.orig $LOGD/log_$ID.tests $LOGD/log_$ID.mut
 fi
